@@ -15,7 +15,6 @@ use crate::engine::{
 };
 use remoc::chmux::{self, Received, RecvChunkError, RecvError, TrySendError};
 
-pub const DEADLINE_S: u64 = 20_000;
 
 #[derive(Clone, Debug, Serialize, Deserialize, PartialEq, Eq, Hash)]
 pub enum Len {
@@ -378,7 +377,29 @@ pub struct CaseRun {
     pub run_results: Vec<Option<String>>,
 }
 
+pub fn frames_bound(case: &Case) -> u64 {
+    let mut bytes = 0u64;
+    let mut nops = 0u64;
+    for p in &case.ports {
+        let (s, r) = if p.reverse { (&case.cfg_b, &case.cfg_a) } else { (&case.cfg_a, &case.cfg_b) };
+        for op in &p.ops {
+            nops += 1;
+            bytes += match &op.how {
+                How::Whole(l) | How::Try(l) => resolve_len(l, s, r) as u64 + 1,
+                How::Chunked { pieces, .. } => pieces.iter().map(|p| *p as u64 + 1).sum::<u64>() + 1,
+            };
+        }
+    }
+    2_000 + 8 * bytes + 16 * nops
+}
+
+pub fn deadline_s(case: &Case) -> u64 {
+    case.sched.deadline_s(frames_bound(case), gen::delay_cap_ms(&case.cfg_a, &case.cfg_b))
+}
+
 pub async fn execute(case: &Case) -> CaseRun {
+    #[allow(non_snake_case)]
+    let DEADLINE_S = deadline_s(case);
     let tape = case.sched.tape();
     let (link, a, b) = match connect_pair(&case.cfg_a, &case.cfg_b, &case.sched, vec![]).await {
         Ok(x) => x,
@@ -464,6 +485,8 @@ pub fn run_case(case: &Case) -> Outcome {
     let tape = case.sched.tape();
     let res = sim::run_sim(case.sched.tokio_seed, &tape, case.sched.defer, execute(case));
     let mut out = Outcome::default();
+    #[allow(non_snake_case)]
+    let DEADLINE_S = deadline_s(case);
     out.frames = res.link.tap_len() as u64 / 2;
     if let Some(e) = res.setup_err {
         out.fail("C01/setup", e);
